@@ -42,7 +42,15 @@ def gen_c10(seed, count):
                 else:
                     c.poll()
             elif x < 0.76:
-                c.feed(publish(0, 0, b't', b'x' * r.randint(0, 5)), r.choice(interesting))
+                pkt = publish(0, 0, b't', b'x' * r.randint(0, 5))
+                if r.random() < 0.4:
+                    # the packet arrives in two pieces, the second one at, just before or after one of the deadlines: the
+                    # read that waits for it races the select's timer, which has already yielded once
+                    k = r.randint(1, len(pkt) - 1)
+                    c.feed(pkt[:k], r.choice(interesting))
+                    c.feed(pkt[k:], r.choice(interesting))
+                else:
+                    c.feed(pkt, r.choice(interesting))
             elif x < 0.82:
                 c.publish(b'a', b'p', qos=r.choice([0, 0, 1]))
             elif x < 0.88:
